@@ -55,6 +55,10 @@ NAMES = [b"a", b"b", b"file one", b"x;y", b"$(touch z)", b"`id`", b"a&b|c", b"*"
          b"C0644 0 x", b"name.with.dots", b"UPPER", b"0", b"a b  c", b"%s%n", b"{}", b"[x]", b"<in>", b"k=v", b"e\x01m"]
 SIZES = [0, 0, 1, 1, 2, 7, 100, 8191, 8192, 8193, 3 * 8192 - 1, 3 * 8192, 3 * 8192 + 1]
 HOSTS = [b"host7", b"n1.dom.ain", b"h"]
+# access time of every source: later than every modification time used (and than the clock), so that reading a source --
+# the check's own listdir(), the client's readdir()/read() -- never refreshes it (relatime: atime <= mtime triggers an
+# update) and the `T` record is the same on every machine
+FUTURE = 2 ** 33
 
 
 class Node:
@@ -115,6 +119,9 @@ def set_meta(base, node, future):
     node.atime = future
     os.chmod(p, node.mode)
     os.utime(p, ns=(future * 10**9, node.mtime * 10**9 + node.nsec))
+    # the SOURCE is what the file system holds (it may clamp a far-future time or have a coarser clock)
+    st = os.stat(p)
+    node.mtime, node.nsec = st.st_mtime_ns // 10**9, st.st_mtime_ns % 10**9
 
 
 def reorder(base, node):
@@ -223,13 +230,20 @@ def dest_name(c, userdir, node):
     return node.name + (b"." + c["host"] if c["reverse"] else b"")
 
 
+def asname(c):
+    """a single file copied to a FILE name (new, or an existing regular file): (canonical parent, name), else None"""
+    if c["dest"] == b"dest/new name":
+        return (b"o/w/dest", b"new name")
+    return c.get("asname")
+
+
 def run_cases(ctx, exe, cases, cnt, var, cov, dist, distinct, nested=False):
     sbase = os.path.join(ctx.scratch, "src_shrink" if nested else "src")
     jbase = os.path.join(ctx.scratch, "jails_shrink" if nested else "jails")
     for d in (sbase, jbase):
         shutil.rmtree(d, ignore_errors=True)
         os.makedirs(d)
-    future = int(time.time()) + 50000000
+    future = FUTURE
     ops, mlines, ents_l, jails = [], [], [], []
     for c in cases:
         sdir = os.fsencode(os.path.join(sbase, "c%d" % c["k"]))
@@ -267,7 +281,7 @@ def run_cases(ctx, exe, cases, cnt, var, cov, dist, distinct, nested=False):
             comps[0] = dest_name(c, b"", top)
             for i in range(1, len(comps)):
                 ents.append(Ent(b"o/w/dest/" + b"/".join(comps[:i]), "d", 0o755, OLD + 20 + i))
-            ents.append(Ent(b"o/w/dest/" + b"/".join(comps), "f", 0o600, OLD + 30, b"X" * (node.gen[1] + 50)))
+            ents.append(Ent(b"o/w/dest/" + b"/".join(comps), "f", 0o600, OLD + 30, b"X" * (node.gen[1] + c.get("old_extra", 50))))
         j = os.path.join(jbase, "j%d" % c["k"])
         pcp.build_jail(j, ents)
         jails.append(j)
@@ -308,9 +322,9 @@ def run_cases(ctx, exe, cases, cnt, var, cov, dist, distinct, nested=False):
                     gens[d[:64] + b"|%d" % len(d)] = n.gen
         dcanon = pcp.lexnorm(CWD, c["dest"])
         stoks = []
-        if c["dest"] == b"dest/new name":
-            dcanon = b"o/w/dest"
-            stoks = tokens(c["srcs"][0][1], name=b"new name")
+        if asname(c):
+            dcanon, newname = asname(c)
+            stoks = tokens(c["srcs"][0][1], name=newname)
         else:
             for userdir, t in c["srcs"]:
                 stoks += tokens(t, name=dest_name(c, userdir, t))
@@ -358,6 +372,16 @@ def run_cases(ctx, exe, cases, cnt, var, cov, dist, distinct, nested=False):
             ctx.disagreement("spec11", "unexpected answer " + sp[:300], cj)
         if c.get("overwrite"):
             dist["overwrite_cases"] += 1
+        if c.get("refused"):
+            # several entries for a destination that is not an existing directory: pdcp runs the receiver with -y, which
+            # must refuse the copy -- reported, nothing created, the file that is there untouched
+            dist["refused_dest_cases"] = dist.get("refused_dest_cases", 0) + 1
+            bads = []
+            ch = pcp.changed_paths({e.path: e for e in ents_l[i]}, snaps[i], t0)
+            if "E:notdir" not in replies or ch:
+                ctx.offender("refused:destination-not-a-directory", "several entries copied to a destination that is not "
+                             "an existing directory: expected one `not a directory` error record and no change; replies "
+                             "%s, changed %r" % (replies[:6], ch[:4]), cj)
         cp = c.get("conflict_path")
         if cp:
             dist["conflict_cases"] += 1
@@ -369,8 +393,8 @@ def run_cases(ctx, exe, cases, cnt, var, cov, dist, distinct, nested=False):
         for _, t in c["srcs"]:
             for path, n in walk(t, []):
                 comps = path.split(b"/")
-                comps[0] = b"new name" if c["dest"] == b"dest/new name" else dest_name(c, b"", t)
-                expected[(b"o/w/dest" if c["dest"] == b"dest/new name" else dc) + b"/" + b"/".join(comps)] = n
+                comps[0] = asname(c)[1] if asname(c) else dest_name(c, b"", t)
+                expected[(asname(c)[0] if asname(c) else dc) + b"/" + b"/".join(comps)] = n
         # the specification compares modification times to the microsecond; name the sub-second class
         bads = [(pa, "mtime-subsecond" if k == "mtime" and pa in expected and expected[pa].nsec and snaps[i].get(pa) and
                  (snaps[i][pa]["sec"], snaps[i][pa]["nsec"]) == (expected[pa].mtime, 0) else k) for pa, k in bads]
@@ -637,7 +661,9 @@ def case_json(c):
     return dict(sources=[dict(userdir=u.decode("latin-1"), tree=describe(t)) for u, t in c["srcs"]], preserve=c["p"],
                 reverse=c["reverse"], host=c["host"].decode(), umask="%o" % c["um"], dest=c["dest"].decode("latin-1"),
                 file_size_limit=c.get("fsz", 0), destmode="%o" % c["destmode"], conflict=(c["conflict"][0].decode("latin-1"), c["conflict"][1]) if c["conflict"] else None,
-                overwrite=c["overwrite"].decode("latin-1") if c.get("overwrite") else None)
+                overwrite=c["overwrite"].decode("latin-1") if c.get("overwrite") else None,
+                old_extra=c.get("old_extra", 50), refused=bool(c.get("refused")),
+                asname=[x.decode("latin-1") for x in c["asname"]] if c.get("asname") else None)
 
 
 def from_json(j, k):
@@ -652,7 +678,9 @@ def from_json(j, k):
                 reverse=j["reverse"], host=j["host"].encode(), um=int(j["umask"], 8), dest=j["dest"].encode("latin-1"),
                 conflict=(j["conflict"][0].encode("latin-1"), j["conflict"][1]) if j.get("conflict") else None,
                 overwrite=j["overwrite"].encode("latin-1") if j.get("overwrite") else None, fsz=j.get("file_size_limit", 0),
-                destmode=int(j["destmode"], 8), subsec=any(n.nsec for s in j["sources"] for _, n in walk(mk(s["tree"]), [])))
+                destmode=int(j["destmode"], 8), subsec=any(n.nsec for s in j["sources"] for _, n in walk(mk(s["tree"]), [])),
+                old_extra=j.get("old_extra", 50), refused=j.get("refused", False),
+                asname=tuple(x.encode("latin-1") for x in j["asname"]) if j.get("asname") else None)
 
 
 def corpus(k0):
@@ -672,8 +700,113 @@ def corpus(k0):
     cs.append(dict(base, p=0, overwrite=b"d/x", srcs=[(b"", Node(b"d", "d", 0o755, 1234567000, kids=[f(b"x", 10), f(b"z", 3)]))]))
     # a source the user names exactly like the leave-directory sentinel is sent as `E`
     cs.append(dict(base, srcs=[(b"", f(b"a!b@c#d$", 5)), (b"", f(b"after", 9))]))
+    cs += classes()
     for i, c in enumerate(cs):
         c["k"] = k0 + i
+    return cs
+
+
+def classes():
+    """The classes EVERY quick run covers whatever the seed (G1): sizes at and around the transfer block, twice the
+    block, a size with a long decimal text; names with blanks, leading dashes, `%` directives, 255 bytes, control bytes,
+    names that look like protocol records or like the leave-directory sentinel (as directory entries and as sources the
+    user names); every interesting mode of files and directories; modification times 0, sub-second, at and beyond 2^31
+    and 2^32; all of it with and without -p; directories empty, deep, wide; a file where a directory is expected on the
+    target and the reverse, at the top and inside a tree; existing longer files replaced (barely longer, one block longer,
+    much longer; new size 0 / a block multiple / neither); several sources through sub-paths; reverse copies from hosts
+    whose names contain dots; the destination given as directory, directory with slash, absolute, through `..`, as a
+    new file name, as an existing file, and -- with several entries -- missing or a regular file (must be refused);
+    umask 0 / 027 / 077 without -p; write faults."""
+    B = pcp.BUFSIZ
+
+    def f(name, size, mode=0o644, mt=1234567890, nsec=0):
+        return Node(name, "f", mode, mt, nsec=nsec, gen=(size + 11 + len(name), size))
+
+    def d(name, kids, mode=0o755, mt=1234567000, nsec=0):
+        return Node(name, "d", mode, mt, nsec=nsec, kids=kids)
+    base = dict(p=1, reverse=False, host=b"host7", um=0o22, dest=b"dest", conflict=None, overwrite=None, destmode=0o755,
+                subsec=False, fsz=0)
+    cs = []
+    # ---- sizes
+    for p in (0, 1):
+        cs.append(dict(base, p=p, srcs=[(b"", d(b"sizes", [f(b"s%d" % n, n) for n in (0, 1, B - 1, B, B + 1, 2 * B - 1, 2 * B,
+                                                                                 2 * B + 1)]))]))
+    cs.append(dict(base, p=0, srcs=[(b"", f(b"long-size", 1048577))]))
+    # ---- names
+    names = [b"with blank", b" leading blank", b"trailing blank ", b"-leading-dash", b"--", b"-", b"100%", b"%s%n%d%p%S%m",
+             b"%", b"N" * 255, b"E", b"T1 0 1 0", b"C0644 0 x", b"D0755 0 x", b"a!b@c#d$", b"\x01soh", b"\x02stx",
+             b"tab\there", b"back\\slash", b"cr\rname", b"\xff\xfe", b"...", b"..x", b"~", b"*"]
+    for p in (0, 1):
+        cs.append(dict(base, p=p, srcs=[(b"", d(b"names", [f(n, 3 + i) for i, n in enumerate(names)] +
+                                                [d(b"dir " + n[:40], [f(n, 1)]) for n in names[:12]]))]))
+    cs.append(dict(base, p=0, srcs=[(b"", d(n, [f(b"in", 2)])) for n in (b"-d", b"100% dir", b"E")]))
+    for i, n in enumerate((b"-leading-dash", b"E", b"T1 0 1 0", b"%s%n", b"N" * 255, b"with blank")):
+        cs.append(dict(base, p=i % 2, srcs=[(b"", f(n, 5 + i))]))
+    cs.append(dict(base, srcs=[(b"", d(b"a!b@c#d$", [f(b"inside", 4), d(b"a!b@c#d$", [f(b"a!b@c#d$", 2)])])), (b"", f(b"after", 9))]))
+    # ---- modes
+    fm = [0, 0o400, 0o777, 0o4755, 0o2755, 0o1777, 0o7777, 0o644, 0o200, 0o111, 0o4000, 0o2000, 0o1000]
+    dm = [0, 0o500, 0o777, 0o1777, 0o2775, 0o4755, 0o7777, 0o700, 0o3000]
+    for p in (0, 1):
+        for um in (0o27, 0):
+            cs.append(dict(base, p=p, um=um, srcs=[(b"", d(b"modes", [f(b"f%o" % m, 4, mode=m) for m in fm] +
+                                                            [d(b"d%o" % m, [f(b"k", 1), d(b"kd", [])], mode=m) for m in dm]))]))
+    for i, m in enumerate((0, 0o4755, 0o1777)):
+        cs.append(dict(base, p=1, srcs=[(b"", f(b"top%o" % m, 3, mode=m)), (b"", d(b"topd%o" % m, [f(b"k", 1)], mode=m))]))
+    # ---- modification times
+    mts = [(0, 0), (1, 0), (1234567890, 123456000), (1234567890, 999999000), (1234567890, 1000), (1234567890, 999),
+           (2147483647, 0), (2147483648, 0), (4102444800, 0), (4294967296, 500000000), (4294967295, 999999999)]
+    for p in (0, 1):
+        cs.append(dict(base, p=p, subsec=True, srcs=[(b"", d(b"times", [f(b"t%d" % i, 2, mt=sec, nsec=ns) for i, (sec, ns) in enumerate(mts)] +
+                                                            [d(b"dt%d" % i, [f(b"k", 1)] if i % 2 else [], mt=sec, nsec=ns)
+                                                             for i, (sec, ns) in enumerate(mts)], mt=0))]))
+    cs.append(dict(base, subsec=True, srcs=[(b"", f(b"t-top", 1, mt=0)), (b"", f(b"t-sub", 1, nsec=500000000)),
+                                          (b"", d(b"d-top", [f(b"k", 1)], mt=1, nsec=1000))]))
+    # ---- directories: empty, deep (no fixed-size stack anywhere may hold this), wide
+    cs.append(dict(base, srcs=[(b"", d(b"e1", [], mode=0o700)), (b"", d(b"e2", [d(b"e3", [d(b"e4", [])])]))]))
+    deep = f(b"leaf", 10)
+    for i in range(40):
+        deep = d(b"l%d" % (i % 3), [deep, f(b"side", i)] if i % 7 == 0 else [deep], mt=1234560000 + i)
+    cs.append(dict(base, srcs=[(b"", deep)]))
+    cs.append(dict(base, p=0, srcs=[(b"", d(b"wide", [f(b"w%03d" % i, i % 5) for i in range(300)]))]))
+    # ---- something of the wrong kind is in the way
+    def tree():
+        return d(b"tree", [f(b"a", 3), d(b"sub", [f(b"x", 4), d(b"deeper", [f(b"y", 1)])]), f(b"z", 5)])
+    for path, kind in ((b"tree", "d"), (b"tree/sub", "d"), (b"tree/a", "f"), (b"tree/sub/x", "f"), (b"tree/z", "f")):
+        for p in (0, 1):
+            cs.append(dict(base, p=p, conflict=(path, kind), srcs=[(b"", tree()), (b"", f(b"other file", 7))]))
+    cs.append(dict(base, conflict=(b"single", "f"), srcs=[(b"", f(b"single", 9)), (b"", f(b"next", B + 3))]))
+    cs.append(dict(base, reverse=True, host=b"n1.dom.ain", conflict=(b"single", "f"), srcs=[(b"", f(b"single", 9)), (b"", f(b"next", 3))]))
+    # ---- an existing longer file is replaced, not patched
+    for n in (0, 10, B, B + 10, 2 * B):
+        for extra in (1, 50, B, 3 * B):
+            cs.append(dict(base, p=(n + extra) % 2, overwrite=b"d/x", old_extra=extra,
+                           srcs=[(b"", d(b"d", [f(b"x", n), f(b"z", 3)]))]))
+    cs.append(dict(base, overwrite=b"top", old_extra=B, srcs=[(b"", f(b"top", B))]))
+    # ---- several sources through sub-paths
+    cs.append(dict(base, srcs=[(b"in", f(b"one", 1)), (b"deep/er", d(b"two", [f(b"k", 2)])), (b"", f(b"three", 3)),
+                               (b"in", d(b"four", []))]))
+    # ---- reverse copies: SRC.host with dots in the host name
+    for i, host in enumerate((b"n1.dom.ain", b"h", b"a.b.c.d.example.org", b"host-7", b"10.0.0.1")):
+        cs.append(dict(base, p=i % 2, reverse=True, host=host, srcs=[
+            (b"in", f(b"t.txt", B + 1)), (b"", d(b"tree.d", [f(b"q", 5), d(b"e", [])], mode=0o750)), (b"", f(b"noext", 0))]))
+    # ---- the destination
+    for dest in (b"dest/", b"./dest", b"/o/w/dest", b"../w/dest", b"dest/.", b"dest//"):
+        cs.append(dict(base, dest=dest, srcs=[(b"", tree())]))
+        cs.append(dict(base, p=0, dest=dest, srcs=[(b"", f(b"single", 3))]))
+    for p in (0, 1):
+        cs.append(dict(base, p=p, dest=b"dest/new name", srcs=[(b"", f(b"single", B, mode=0o640))]))
+        cs.append(dict(base, p=p, dest=b"other", asname=(b"o/w", b"other"), srcs=[(b"", f(b"single", 3, mode=0o640))]))
+        cs.append(dict(base, p=p, dest=b"missing", refused=True, srcs=[(b"", tree())]))
+        cs.append(dict(base, p=p, dest=b"other", refused=True, srcs=[(b"", f(b"a", 1)), (b"", f(b"b", 2))]))
+        cs.append(dict(base, p=p, dest=b"dest/nope/deeper", refused=True, srcs=[(b"", f(b"a", 1)), (b"", f(b"b", 2))]))
+    # ---- umask without -p
+    for um in (0, 0o77, 0o27, 0o777):
+        cs.append(dict(base, p=0, um=um, srcs=[(b"", d(b"um", [f(b"f", 1, mode=0o666), f(b"x", 1, mode=0o7777), d(b"dd", [], mode=0o777)],
+                                                         mode=0o777))]))
+    # ---- write faults
+    for fsz in (B, 2 * B, 100):
+        cs.append(dict(base, p=fsz % 3 % 2, fsz=fsz, srcs=[(b"", d(b"wf", [f(b"a", 100), f(b"big", 5 * B + 1), f(b"fits", min(fsz, B)),
+                                                                       d(b"sub", [f(b"big2", 3 * B), f(b"ok", 7)]), f(b"z", 50)]))]))
     return cs
 
 
@@ -715,7 +848,7 @@ def run_e2e(ctx, cov, dist):
         if not os.path.lexists(os.path.join(bindir, n)):
             os.symlink(os.path.join(repo, "src/pdsh/pdsh"), os.path.join(bindir, n))
     nruns = 8 if ctx.quick() else 60
-    future = int(time.time()) + 50000000
+    future = FUTURE
     dist["e2e_runs"] = 0
     for k in range(nruns):
         w = os.path.join(ctx.scratch, "e2e%d" % k)
@@ -1208,7 +1341,7 @@ def probe_sender(ctx, exe):
         for d in (sdir, j):
             shutil.rmtree(d, ignore_errors=True)
         os.makedirs(sdir)
-        future = int(time.time()) + 50000000
+        future = FUTURE
         for t in trees:
             materialize(os.fsencode(sdir), t, future)
             set_meta(os.fsencode(sdir), t, future)
@@ -1263,7 +1396,7 @@ def run(ctx):
                                   "refused directory skipped: %s" % ("yes" if var["ssec"] else "no", "yes" if var["sfix"] else "no",
                                                                      "yes" if var["skipref"] else "no"))
         ctx.log("variants:", dist["receiver_variant"], "|", dist["sender_variant"])
-        n = 250 if ctx.quick() else 6000
+        n = 200 if ctx.quick() else 6000
         cases, mcases = [], []
         if ctx.replay:
             import json
